@@ -3618,6 +3618,15 @@ impl Zeroconf {
         self.send_query(&ty, RRType::PTR);
         self.increase_counter(Counter::Browse, 1);
 
+        if !repeating {
+            // Remove pending browse commands of an earlier browse for the same `ty`,
+            // as this browse schedules its own below.
+            self.retransmissions.retain(|rerun| match &rerun.command {
+                Command::Browse(t, ..) => t != &ty,
+                _ => true,
+            });
+        }
+
         let next_time = now + (next_delay * 1000) as u64;
         let max_delay = 60 * 60;
         let delay = cmp::min(next_delay * 2, max_delay);
@@ -3644,6 +3653,14 @@ impl Zeroconf {
             return;
         }
         if !repeating {
+            // Remove pending resolve commands of an earlier resolve for the same `hostname`,
+            // as this resolve replaces it.
+            let hostname_lower = hostname.to_lowercase();
+            self.retransmissions.retain(|rerun| match &rerun.command {
+                Command::ResolveHostname(h, ..) => h.to_lowercase() != hostname_lower,
+                _ => true,
+            });
+
             self.add_hostname_resolver(hostname.to_owned(), listener.clone(), timeout);
             // if we already have the records in our cache, just send them
             self.query_cache_for_hostname(&hostname, listener.clone());
